@@ -42,9 +42,9 @@ def power_spectrum(mask, pixelscale, rms, half_power_freq, exp, seed=None):
 
     # Define a frequency grid in units of cycles/px
     n, m = mask.shape
-    yy, xx = np.mgrid[0:m, 0:n]
-    yy = (yy - (np.floor(m / 2) + 1)) / m
-    xx = (xx - (np.floor(n / 2) + 1)) / n
+    yy, xx = np.mgrid[0:n, 0:m]
+    yy = (yy - (np.floor(n / 2) + 1)) / n
+    xx = (xx - (np.floor(m / 2) + 1)) / m
     dr = np.sqrt(xx * xx + yy * yy)
 
     # Scale the half-power point in units of cycle/px
